@@ -275,3 +275,72 @@ Definition is_indef_term (ber : list N) (offset : Z) : ires :=
   | Some a, Some b => IOk ((a =? 0) && (b =? 0))
   | _, _ => IOOB
   end.
+
+(* ------------------------------------------------------------------ 8. detectMarker *)
+
+(* strings.Index(s, p): position of the first occurrence, -1 if there is none *)
+Fixpoint prefixb (p s : list N) : bool :=
+  match p, s with
+  | [], _ => true
+  | a :: p', b :: s' => (a =? b) && prefixb p' s'
+  | _ :: _, [] => false
+  end.
+Fixpoint index_from (p s : list N) (i : Z) : Z :=
+  if prefixb p s then i else
+  match s with
+  | [] => (-1)%Z
+  | _ :: t => index_from p t (i + 1)%Z
+  end.
+Definition str_index (p s : list N) : Z := index_from p s 0%Z.
+
+(* parse.go:isMarkerTerminated(rune(b)) for a byte b: 0 or unicode.IsSpace of the Latin-1 code point *)
+Definition is_marker_term (b : N) : bool :=
+  (b =? 0) || (b =? 9) || (b =? 10) || (b =? 11) || (b =? 12) || (b =? 13) || (b =? 32) || (b =? 133) || (b =? 160).
+
+Definition m_endobj : list N := [101; 110; 100; 111; 98; 106].
+Definition m_stream : list N := [115; 116; 114; 101; 97; 109].
+Definition m_xref : list N := [120; 114; 101; 102].
+
+Inductive dres := DRes (ind : Z) | DOOB | DOOF.
+
+(* the `for !isMarkerTerminated(rune(line[off]))` loop of parse.go:detectMarker.
+   guarded = the look-ahead behind "xref" is only read when it lies inside the line
+   (`j >= 0 && j+4 < len(line)`); guarded = false is the code as it was: `if j >= 0 { r := rune(line[j+4])` *)
+Fixpoint dm_loop (fuel : nat) (guarded is_endobj : bool) (marker line : list N) (off ind : Z) : dres :=
+  match fuel with
+  | O => DOOF
+  | S f =>
+    match getb line off with
+    | None => DOOB
+    | Some c =>
+      if is_marker_term c then DRes ind else
+      let line1 := skipn (Z.to_nat off) line in
+      let look : option dres :=                                       (* Some r = return r *)
+        if is_endobj then
+          let j := str_index m_xref line1 in
+          if (0 <=? j)%Z && (negb guarded || (j + 4 <? Z.of_nat (length line1))%Z) then
+            match getb line1 (j + 4) with
+            | None => Some DOOB
+            | Some r => if is_marker_term r then Some (DRes ind) else None
+            end
+          else None
+        else None in
+      match look with
+      | Some r => r
+      | None =>
+        let i := str_index marker line1 in
+        if (i <? 0)%Z then DRes (-1)
+        else if (Z.of_nat (length line1) <=? i + Z.of_nat (length marker))%Z then DRes (-1)
+        else let off1 := (i + Z.of_nat (length marker))%Z in
+             dm_loop f guarded is_endobj marker line1 off1 (ind + off1)%Z
+      end
+    end
+  end.
+
+(* parse.go:detectMarker(line, marker) for marker = "endobj" (is_endobj) or "stream" *)
+Definition detect_marker (guarded is_endobj : bool) (line : list N) : dres :=
+  let marker := if is_endobj then m_endobj else m_stream in
+  let i := str_index marker line in
+  if (i <? 0)%Z then DRes i
+  else if (Z.of_nat (length line) <=? i + Z.of_nat (length marker))%Z then DRes (-1)
+  else dm_loop (S (length line)) guarded is_endobj marker line (i + Z.of_nat (length marker))%Z i.
